@@ -176,3 +176,100 @@ func replayConcurrent(t *testing.T, raw json.RawMessage) {
 		}
 	}
 }
+
+// sharedReaders returns the body of one reader of ONE shared value (round L4:
+// the same argument reused by concurrent callers): Bound, Dimensions, Equal
+// both ways, Clone and (for a ring) Orientation are read-only, so every
+// goroutine must see the model's answers, and the value must be unchanged
+// afterwards (done()).
+func sharedReaders(c GeomCase) (f func(int) error, done func() error) {
+	g, ref := gen.DeepCopy(c.G.V), gen.DeepCopy(c.G.V)
+	if g == nil {
+		return func(int) error { return nil }, func() error { return nil }
+	}
+	wantB, has := modelBound(g)
+	dim := modelDim(g)
+	known := cloneNilKnown() && cloneNilFamily(g)
+	var ringSign int
+	var ringDemand bool
+	if r, ok := g.(orb.Ring); ok {
+		sg, robust, exact, distinct := shoelaceX(r)
+		ringSign, ringDemand = sg, distinct < 3 || exact || (robust && maxAbs(r) <= orientSafeMax)
+		if distinct < 3 {
+			ringSign = 0
+		}
+	}
+	f = func(int) error {
+		got := g.Bound()
+		if has && (got.IsEmpty() || !sameBox(got, wantB)) {
+			return fmt.Errorf("shared value: Bound() = %v, want %v", got, wantB)
+		}
+		if !has && !got.IsEmpty() {
+			return fmt.Errorf("shared value without vertices: Bound() = %v is not empty", got)
+		}
+		if d := g.Dimensions(); d != dim {
+			return fmt.Errorf("shared value: Dimensions() = %d, want %d", d, dim)
+		}
+		if !orb.Equal(g, ref) || !orb.Equal(ref, g) || !orb.Equal(g, g) {
+			return fmt.Errorf("shared value: orb.Equal with its copy or itself = false")
+		}
+		if cl := orb.Clone(g); !known {
+			if cl == nil {
+				return fmt.Errorf("shared value: orb.Clone returned a nil interface")
+			}
+			if d := cmpGeom(cl, ref, false); d != "" {
+				return fmt.Errorf("shared value: orb.Clone differs: %s", d)
+			}
+		}
+		if r, ok := g.(orb.Ring); ok && ringDemand {
+			if o := r.Orientation(); int(o) != ringSign {
+				return fmt.Errorf("shared ring: Orientation = %d, want %d", o, ringSign)
+			}
+		}
+		return nil
+	}
+	done = func() error {
+		if d := cmpGeom(g, ref, true); d != "" {
+			return fmt.Errorf("read-only calls changed the shared value: %s", d)
+		}
+		return nil
+	}
+	return f, done
+}
+
+func TestPropSharedReaders(t *testing.T) {
+	assumptions()
+	stats.Check(t, 800, 40000, func(rt *rapid.T) {
+		var c GeomCase
+		var nd *node
+		if rapid.Bool().Draw(rt, "big") {
+			c, nd = drawBigGeom(rt)
+		} else {
+			c, nd, _ = drawGeomCase(rt)
+		}
+		n := rapid.IntRange(2, 8).Draw(rt, "goroutines")
+		stats.Class("shared readers kind:" + nd.Kind)
+		if geomNonTrivial(nd) {
+			stats.NonTrivial("shared:" + gen.JSON(c))
+		}
+		f, done := sharedReaders(c)
+		stats.TryParallel(rt, "TestPropSharedReaders", c, n, 20, f)
+		stats.Try(rt, "TestPropSharedReaders", c, done)
+	})
+}
+
+func replaySharedReaders(t *testing.T, raw json.RawMessage) {
+	var c GeomCase
+	if err := json.Unmarshal(raw, &c); err != nil {
+		t.Fatal(err)
+	}
+	for k := 0; k < 20; k++ {
+		f, done := sharedReaders(c)
+		if err := stats.ParallelErr(8, 100, f); err != nil {
+			t.Fatalf("replayed case still fails: %v", err)
+		}
+		if err := done(); err != nil {
+			t.Fatalf("replayed case still fails: %v", err)
+		}
+	}
+}
